@@ -12,6 +12,8 @@ from db import Cfg, callee, mir_callee, mir_calls, walk
 from mirterm import bodies_under, calls_in, params_of, show, subterms, terms_of
 import panics
 
+import re
+
 MOD = "transformation::ssa_transformation"
 OP = "il::operation::Operation"
 
@@ -203,9 +205,13 @@ def r3(db, rep):
                  "Instruction: reads (get_version) before writes (new_version); ControlFlowGraph: the block, then the "
                  "guards of its outgoing edges and the successors' phi operand for this block, children in the dominator "
                  "tree between start_new_scope and end_scope")
-    ins = [k for k in db.mir.keys() if k.startswith("<il::instruction::Instruction as %s::SsaRename>::rename_scalars" % MOD)]
-    blk = [k for k in db.mir.keys() if k.startswith("<il::block::Block as %s::SsaRename>::rename_scalars" % MOD)]
-    cfgk = [k for k in db.mir.keys() if k.startswith("<il::control_flow_graph::ControlFlowGraph as %s::SsaRename>::rename_scalars" % MOD)]
+    # the renaming trait may live in the module itself or in a private submodule of it
+    def impls_for(ty):
+        pat = re.compile(r"^<%s as %s::(?:[a-z_0-9]+::)*SsaRename>::rename_scalars" % (re.escape(ty), re.escape(MOD)))
+        return [k for k in db.mir.keys() if pat.match(k)]
+    ins = impls_for("il::instruction::Instruction")
+    blk = impls_for("il::block::Block")
+    cfgk = impls_for("il::control_flow_graph::ControlFlowGraph")
     rep.anchor(ins and blk and cfgk, "SsaRename impls for Instruction, Block, ControlFlowGraph")
     body = db.mir[ins[0]]
     rep.analysed(ins[0])
@@ -227,7 +233,11 @@ def r3(db, rep):
     ok = bool(ph and it and nv) and cfg.dominates(ph[0], it[0]) and all(cfg.dominates(ph[0], n) and not cfg.dominates(it[0], n) for n in nv)
     r.decide(ok, "block|phi_outputs_first", db.where(body), "phi outputs must be versioned before the block's instructions")
     # CFG traversal helper
-    helper = [k for k in db.mir.keys() if k.startswith(cfgk[0] + "::") and "dominator_tree_dfs" in k and "{closure" not in k]
+    # the recursive pre-order walk of the dominator tree: the self-recursive function of this module that the graph's renaming calls
+    # (nested in the impl method or a module-level function)
+    called = {mir_callee(t) or "" for i, t in mir_calls(db.mir[cfgk[0]])}
+    helper = [k for k in sorted(called) if k.startswith(("<", MOD)) and k in db.mir and "{closure" not in k and k != cfgk[0] and
+              any((mir_callee(t2) or "") == k for i2, t2 in mir_calls(db.mir[k]))]
     rep.anchor(helper, "dominator-tree traversal helper")
     body = db.mir[helper[0]]
     rep.analysed(helper[0])
